@@ -151,7 +151,8 @@ def enabled_ops(st, raw, prop, target=None):
     for l in st.reg:
         ops.append(("remove", nm_(l)))
     for name in sorted(st.removed):
-        ops.append(("readd", name))
+        if name not in st.hx._indicators:  # registering a second indicator under a name in use replaces the first: not in the alphabet
+            ops.append(("readd", name))
     if EXTRA not in st.reg and len(st.reg) < 3:
         ops.append(("add", EXTRA))
     return ops
@@ -409,7 +410,7 @@ def main(prop, tier):
     word = STREAM_WORDS[var["rot"] % len(STREAM_WORDS)]
     items = []
     if prop == "C14":
-        depth = 4 if tier == "quick" else 5
+        depth = 4 if tier == "quick" else 6
         for reg in C14_SETS:
             items.append((prop, tier, reg, depth, word))
         for reg in (("EMA2",), ("RSI2", "SMA2"), ("ST2",), ("EMA2@T2",)):
@@ -421,7 +422,7 @@ def main(prop, tier):
             if tier != "quick":
                 items.append((prop, tier, reg, depth, STREAM_WORDS[(var["rot"] + 1) % 3]))
     else:
-        depth = 3 if tier == "quick" else 4
+        depth = 3 if tier == "quick" else 5
         for a, b in c13_pairs(tier):  # ordered pairs: both registration orders; operations aimed at either member
             for tix in (0, 1):
                 items.append((prop, tier, (a, b), depth - 1, word, (), None, tix))
